@@ -119,6 +119,7 @@ OPS_DEPS = {
     "ops_param.c": ["shim_run_kalign.c"],
     "ops_bpm.c": ["shim_kmeans.c", "shim_bpm.c"],
     "ops_kmeans.c": ["shim_kmeans.c", "shim_kmeans_serial.c"],
+    "ops_pipe.c": [],
     "ops_weave.c": [],
     "ops_ref.c": [],
     "ops_sys.c": [],
@@ -600,6 +601,30 @@ def unit_correspondence(ctx, kvh, lines, what):
         k = l.split()[0]
         kinds[k] = kinds.get(k, 0) + 1
     ctx.cov.setdefault("unit_op_kinds", {}).update(kinds)
+    return diffs
+
+
+def pipeline_theorems(prefixes):
+    """names from Props/Pipeline.theorems whose last component starts with one of the prefixes"""
+    p = os.path.join(LEAN, "KalignModel", "Props", "Pipeline.theorems")
+    if not os.path.exists(p):
+        return []
+    names = [l.strip() for l in open(p) if l.strip() and not l.startswith("#")]
+    return [n for n in names if any(n.split(".")[-1].startswith(x) for x in prefixes)]
+
+
+def pipeline_correspondence(ctx, kvh, seeds, scale=1, keep=None):
+    """whole-pipeline tie: the composed Lean model `kalignRun` (detection, canonical order, distances, guide tree incl. bisecting k-means, binary32
+    DP, weave, rank restoration) against the real kalign() on the same array inputs (the harness runs it with 1 and with 8 threads)"""
+    lines = []
+    for sd in seeds:
+        lines += gen_ops("gen_pipe.py", sd, scale)
+    if keep is not None:
+        lines = lines[:keep]
+    diffs = correspond(kvh, lines, chunks=NCPU, timeout=1800)
+    ctx.count("unit_ops_pipeline", len(lines))
+    ctx.evaluations += len(lines)
+    ctx.cov.setdefault("unit_op_kinds", {})["kalign_sys"] = ctx.cov.get("unit_op_kinds", {}).get("kalign_sys", 0) + len(lines)
     return diffs
 
 
